@@ -112,34 +112,23 @@ def h_reconcile(ctx, case):
         if case.get('foreign'):
             fk = ctx.choice(f"foreign[{k}]", 3)
             if fk == 1:
-                # unknown to reference and query: dropped like any gene
-                # missing from the query, or reported - either is fine
-                lst.append(FOREIGN)
-                may_err = True
+                lst.append(FOREIGN)      # unknown to reference and query
+                foreign_needed = True
             elif fk == 2:
                 lst.append('qOnly')      # in the query, not the reference
-                nk = len(names[0]) if p is None else len(
-                    orc.kids(levels.index(p[0]), p[1]))
-                if nk > 1:
-                    foreign_needed = True
-                else:
-                    may_err = True
+                foreign_needed = True
         if case.get('dups') and lst and ctx.flag(f"dup[{k}]"):
             lst.append(lst[0])
         table[k] = lst
     env = Env(ctx)
     cache = env.path('cache.h5')
     want, want_err = model(orc, levels, names, table, query, minm)
-    # a query gene unknown to the reference listed for a parent that
-    # needs markers must end in an error
+    # a listed gene unknown to the reference must end in an error
     foreign_err = foreign_needed
     root_single = len(names[0]) == 1
     if root_single and not (set(table.get('None', [])) & set(query)):
         # 'root without usable markers => error' vs 'a parent with a
         # single child needs no markers': either outcome is accepted
-        may_err = True
-    if foreign_needed is False and any(
-            'qOnly' in v for v in table.values()):
         may_err = True
     try:
         MC.create_marker_cache_from_specified_markers(
@@ -258,7 +247,11 @@ HARNESSES = [
                    {'sizes': [2], 'genes': 2, 'foreign': True},
                    {'sizes': [2, 3], 'genes': 2, 'max_min': 2},
                    {'sizes': [1, 2], 'genes': 2, 'foreign': True},
-                   {'sizes': [3, 2], 'genes': 1, 'onto': False}],
+                   {'sizes': [3, 2], 'genes': 1, 'onto': False},
+                   # nearest-first order of the ancestor fallback needs a
+                   # parent with two proper ancestors below the root
+                   {'sizes': [1, 1, 1, 2], 'genes': 2, 'max_min': 1},
+                   {'sizes': [1, 1, 2], 'genes': 2, 'max_min': 1}],
             thorough_cases=[
                 {'sizes': [2], 'genes': 3, 'perm_ref': True,
                  'perm_query': True, 'foreign': True, 'dups': True},
@@ -270,6 +263,9 @@ HARNESSES = [
                 {'sizes': [2, 3], 'genes': 2, 'foreign': True,
                  'perm_query': True},
                 {'sizes': [3, 2], 'genes': 2, 'onto': False},
+                {'sizes': [1, 1, 1, 2], 'genes': 3, 'max_min': 2},
+                {'sizes': [1, 2, 2, 3], 'genes': 2, 'max_min': 1},
+                {'sizes': [1, 1, 2], 'genes': 2, 'foreign': True},
                 {'sizes': [2, 2, 2], 'genes': 2, 'onto': False}],
             funcs=FUNCS, classify=classify,
             stubs=['h5py -> in-memory model'],
